@@ -16,6 +16,7 @@
  *     distinguished one the harness can talk about; at(k) finds the entry of k or throws std::out_of_range. */
 #ifndef STUBS_C17_ARGS_H
 #define STUBS_C17_ARGS_H
+#include <stdlib.h>
 #include "stubs/C17_strto.h"
 #include "x_argtext.h"            /* C17_ARGTEXT_USED_INIT, cut from src/Arguments.cc */
 
@@ -100,6 +101,19 @@ extern bool g_present;            /* the looked-up name is a key of `named` */
 extern ArgVec* g_vals;            /* its vector (the distinguished entry) */
 extern vstr C17_empty_string;         /* Arguments::empty_string (initialised by the harness to a valid empty string) */
 extern ArgVec C17_empty_vec;          /* the function-local static of get_values_multi (hoisted; never modified) */
+
+/* copy construction of std::vector<ArgText> (`auto v = get_values_multi(name);`): a distinct vector object of the same size whose
+ * elements are copies -- stated for the observed element g_nj (ghost index idiom); writes to the copy do not reach the original */
+extern size_t g_nj;
+static inline void C17_argvec_copy(ArgVec* dst, const ArgVec* src)
+{
+  dst->size = src->size;
+  dst->data = (ArgText*)malloc((src->size ? src->size : 1) * sizeof(ArgText));
+  __CPROVER_assume(dst->data != 0);
+  if (g_nj < src->size) {
+    dst->data[g_nj] = src->data[g_nj];
+  }
+}
 
 /* std::unordered_map::at(key): reference to the mapped value, std::out_of_range if there is no such element.
  * Which strings are keys is abstracted to the flag g_present. */
